@@ -152,6 +152,12 @@ def mk_symbolic(ip: Interp, sortname: str, hint: str):
         t = p.fresh(hint, z3.IntSort())
         p.vars[hint] = ('func', t)
         return FuncVal(sortname.split(':', 1)[1], t)
+    if sortname.startswith('optfunc:'):
+        # an optional callable: present or None (decided per path)
+        has = p.fresh(hint + '_present', z3.BoolSort())
+        if p.fork(has):
+            return FuncVal(sortname.split(':', 1)[1], p.fresh(hint, z3.IntSort()))
+        return None
     if sortname.startswith('tuple['):
         parts = _split_top(sortname[len('tuple['):-1])
         return PyTuple([mk_symbolic(ip, s, f'{hint}_{i}') for i, s in enumerate(parts)])
@@ -269,7 +275,7 @@ def coerce_arg(ip: Interp, v, sortname: str, n):
         if isinstance(v, FuncVal) or v is None:
             return v
         ip.oos(f'cannot pass {type(v).__name__} where a {gen} function is expected', n)
-    if sortname in ('arrstr', 'charset', 'None', 'char', 'any') or sortname.startswith(('arrlist[', 'opaque:', 'func:', 'tuple[')):
+    if sortname in ('arrstr', 'charset', 'None', 'char', 'any') or sortname.startswith(('arrlist[', 'opaque:', 'optfunc:', 'tuple[')):
         return v
     sortname = _split_overrides(sortname)[0]
     if sortname in ip.w.registry.classes and 'fields' in ip.w.registry.classes[sortname]:
@@ -384,7 +390,11 @@ def apply_contract(ip: Interp, c, recv, args, kwargs, n):
             havoc_paths(ip, env, c.modifies, short)
             cid = p.fresh('ecls', z3.IntSort())
             p.assume(ip.w.exc.in_range(cid))
-            p.assume(z3.Not(ip.w.exc.is_sub(cid, 'ParseException')))
+            # "other" = anything that is not a parse failure: user exceptions, FailedSemantics, ...
+            p.assume(z3.Not(ip.w.exc.is_sub(cid, 'FailedParse')))
+            p.assume(z3.Not(ip.w.exc.is_sub(cid, 'OptionSucceeded')))
+            for cls in c.raises:
+                p.assume(z3.Not(ip.w.exc.is_sub(cid, cls)))
             exc = ExcV(cid, p.fresh('eid', z3.IntSort()), origin=f'callee:{short}:other')
             inside = p.fresh('raised_inside', z3.BoolSort())
             # only a TypeError can be an argument-binding failure of the call itself
@@ -393,6 +403,8 @@ def apply_contract(ip: Interp, c, recv, args, kwargs, n):
             env['exc'] = exc
             for clause in c.propagates:
                 if clause != 'other':
+                    if _assign_form(ip, clause, env, c.modifies):
+                        continue
                     p.assume(spec_eval_env(ip, clause, env))
             raise Raised(exc)
     havoc_paths(ip, env, c.modifies, short)
@@ -413,6 +425,19 @@ def apply_contract(ip: Interp, c, recv, args, kwargs, n):
 def _assign_form(ip: Interp, clause: str, env: dict, modifies: list[str]) -> bool:
     """a postcondition `<modified path> == <expr>` is applied as an assignment (keeps terms structural)."""
     node = ast.parse(clause.strip(), mode='eval').body
+    if isinstance(node, ast.Call) and isinstance(node.func, ast.Name) and node.func.id == 'grown' \
+            and ast.unparse(node.args[0]) in [m.strip() for m in modifies]:
+        # frames below the old top are untouched, the old top may have changed, frames may be left above it
+        sub = Interp(ip.p, None, env, spec=True, fname='<assign-post>')
+        get, set_ = sub.place(node.args[0])
+        old = sub.ev(node.args[1])
+        st = sub.seq_from_end(old, 1)
+        if st is not None:
+            rest = ip.p.fresh('frames_left', old.sort())
+            ip.p.assume(z3.Length(rest) >= 1)
+            set_(sub.seq_join(sub.seq_parts(st[0]) + [rest], old.sort()))
+            return True
+        return False
     if isinstance(node, ast.Call) and isinstance(node.func, ast.Name) and node.func.id == 'top_only' \
             and ast.unparse(node.args[0]) in [m.strip() for m in modifies]:
         # "only the top frame may differ": the new stack is  old[:-1] ++ [some frame]
